@@ -441,6 +441,12 @@ def duplicate (fty : FieldTy) (n : Nat) (parsed : List Val) : Res (List Val) :=
 
 /-! ## `postprocess` (field_wrapper.py:460-535) -/
 
+/- For a scalar enum field any value with `isinstance(v, str)` is looked up BY NAME (`self.type[v]`).
+   A member of a str-mixin Enum (`class Level(str, Enum)`) is such a str — equal to its VALUE — so
+   where the code looks a parsed value up (or iterates it with `tuple(v)`) such a member is
+   represented here as `.sc (.str value)`; `.sc (.enum nm)` stands for a member that is no `str`
+   (plain Enum, IntEnum), which passes through.  On the public path the values are always member
+   NAMES (tokens checked by `choices=`, defaults converted by `argDefault`). -/
 def postprocess (fty : FieldTy) (v : Val) : Res Val :=
   match fty with
   | .scalar (.enum ms) =>
